@@ -92,6 +92,9 @@ def drive_and_validate(ctx, prop, name, args):
 
 def model(ctx, prop):
     """Exhaustive TLC runs of the writer model against the property layer."""
+    if prop == "C01":
+        # the unindexed iterator (ScanRead.tla): every token stream of its scope x topic set x window against the property layer
+        ctx.tlc_model("ScanReadMC.tla", "ScanRead.cfg", workers=8)
     if ctx.tier == "quick":
         ctx.tlc_model("WriterMC.tla", "Writer_quick.cfg")
         ctx.tlc_model("WriterMC.tla", "Writer_asm_quick.cfg")      # chunks assembled by the caller, AddSchema / AddChannel
